@@ -10,3 +10,8 @@ import Csproto.Bridge.Templates
 #print axioms Csproto.Bridge.Templates.unknown_fields_handled
 #print axioms Csproto.C07.unknown_retained_in_order_nested
 #print axioms Csproto.Gen.unmarshal_nested
+#print axioms Csproto.C07.marshal_result_owned_by_caller
+#print axioms Csproto.C07.only_generated_code_touches_retained_bytes
+#print axioms Csproto.C07.marshal_again_same
+#print axioms Csproto.Bridge.Templates.marshal_result_is_fresh
+#print axioms Csproto.Bridge.Templates.shim_leaves_unknown_store_alone
